@@ -330,6 +330,28 @@ func init() {
 				}
 			}
 		}
+		// keywords that are PRESENT WITH AN EMPTY VALUE next to a typed additionalProperties (properties: {}, required: [],
+		// definitions: {}): an object without declared members is a typed map whatever else is spelled out emptily
+		for _, at := range []M{{"type": "object"}, {"type": "array", "items": M{"type": "string"}}, {"type": "integer"}, {"type": "string"}, {"type": "boolean"}, {"type": "number"}} {
+			for ei, empties := range []M{{}, {"properties": M{}}, {"required": []any{}}, {"properties": M{}, "required": []any{}}, {"properties": M{}, "$defs": M{}}} {
+				for _, viaRef := range []bool{false, true} {
+					node := M{"type": "object", "additionalProperties": at}
+					for k, v := range empties {
+						node[k] = v
+					}
+					schema := M{"type": "object", "properties": M{"meta": node}}
+					if viaRef {
+						schema = M{"type": "object", "properties": M{"meta": M{"$ref": "#/$defs/Meta"}}, "$defs": M{"Meta": node}}
+					}
+					var docs []any
+					for _, v := range []any{"oops", 7, 1.5, true, []any{"a", 7}, []any{"a"}, M{"x": 1}, M{}} {
+						docs = append(docs, M{"meta": M{"k": v}})
+					}
+					docs = append(docs, M{"meta": M{}}, M{"meta": 5}, M{})
+					composed = append(composed, baseCase("c03-composed", schema, docs, "typed-map-with-empty-keywords", fmt.Sprint(at["type"]), fmt.Sprintf("empties=%d ref=%v", ei, viaRef)))
+				}
+			}
+		}
 		o3 := treeOpts()
 		o3.Formats = true // format-typed strings, and `format` as a mere annotation on integers / numbers / booleans
 		pcs := randomTreeCases(c, "c03-random", c.N(250, 4000), o3, func(g *sgen.G, root sgen.M, base any) []any {
